@@ -15,6 +15,7 @@ Three sub-checks on real Host <-> real Controller pairs on the virtual loop:
 from __future__ import annotations
 
 import itertools
+import collections
 import struct
 
 from .. import core, explore
@@ -462,11 +463,20 @@ def run(ctx: core.Context) -> int:
         for r in core.pmap(w_reply, items, ctx.jobs):
             ctx.sub('reply').merge(r)
         ctx.log('reply:', ctx.sub('reply').summary())
+    if not only or 'seq' in only:
+        for r in core.pmap(w_seq, seq_items(quick, ctx.jobs), ctx.jobs):
+            ctx.sub('reply_seq').merge(r)
+        ctx.log('reply_seq:', ctx.sub('reply_seq').summary())
     if not only or 'serialise' in only:
         st = ctx.sub('serialise')
         for si in range(len(SCRIPTS)):
             explore.explore(run_serialise, {'script': si}, 1 if quick else 3, ctx.jobs, st, label=f's{si}:')
         ctx.log('serialise:', st.summary())
+    if not only or 'overlap' in only:
+        st = ctx.sub('overlap')
+        for si in range(len(OVERLAP_SCRIPTS)):
+            explore.explore(run_overlap, {'script': si}, 1 if quick else 2, ctx.jobs, st, label=f'o{si}:')
+        ctx.log('overlap:', st.summary())
     if not only or 'cancel' in only:
         for r in core.pmap(w_cancel, [0, 1, 2], ctx.jobs):
             ctx.sub('cancel_queued').merge(r)
@@ -489,7 +499,7 @@ def run(ctx: core.Context) -> int:
             '0x01/0xFF when still well-formed, handle fields pointed at live/dead handles, address fields at the peer) and '
             'unregistered opcodes in every OGF, sent by a real Host to a real Controller in 3 link situations; distinct = '
             '(situation, packet bytes). serialise: 8 scripts of 2-3 concurrent callers, all order-preserving delivery delays '
-            'with <= d deviations, distinct = (schedule prefix, choice fingerprints). cancel_queued: a caller still queued behind the outstanding command is cancelled before every loop step. '
+            'with <= d deviations, distinct = (schedule prefix, choice fingerprints). reply_seq: every sequence of <= 3 commands of six stateful families (extended advertising sets with fragmented data, legacy advertising/scanning, filter/resolving lists, CIG/CIS, remote requests on classic and LE connections) sent to one controller. overlap: 10 scripts of 2-3 remote requests in flight at the same time (one host, two hosts, two hosts asking a third device), same schedule space. cancel_queued: a caller still queued behind the outstanding command is cancelled before every loop step. '
         ),
         assumptions=[
             "only bumble's virtual controller is in scope",
@@ -500,6 +510,8 @@ def run(ctx: core.Context) -> int:
 
 def replay(v: core.Violation):
     c = v.case
+    if v.check.startswith('seq_'):
+        return [m for ck, _, m in run_seq_case(c['fam'], tuple(c['labels']), c.get('mode', 'step')) if ck == v.check]
     if v.check.startswith('reply_'):
         r = run_reply_case(c['situation'], c['op'], bytes.fromhex(c['pkt']))
         return [r[1]] if r else []
@@ -512,6 +524,9 @@ def replay(v: core.Violation):
     if v.check.startswith('proc_'):
         r = run_proc_case(c['proc'], c['situation'], c['fault'], c['at'])
         return [r['verdict'][1]] if r.get('verdict') and r['verdict'][0] == v.check else []
+    if v.check.startswith('overlap_'):
+        res = run_overlap(c['params'], c['prefix'], None)
+        return [m for ck, _, m in res['viol'] if ck == v.check]
     if v.check.startswith('serial_'):
         res = run_serialise(c['params'], c['prefix'], None)
         return [m for ck, _, m in res['viol'] if ck == v.check]
@@ -952,3 +967,343 @@ def w_noop(arg):
             for check, sig, msg in r['viol']:
                 st.violation(check, dict(sig, window_closed=zc is not None), msg, {'script': script_i, 'kind': kind, 'count': count, 'at': at, 'zc': zc})
     return st
+
+
+# ---------------------------------------------------------------------------
+# sub-check 6: command SEQUENCES.  The answer to a command may depend on what earlier commands left behind in the
+# controller (advertising sets and their fragmented data, filter lists, CIGs, pending remote requests), so every
+# sequence of up to 3 commands of a family is sent to one controller: each command answered exactly once, later
+# commands not blocked, and every remote request the controller ACCEPTED (Command Status 0) concluded by exactly one
+# completion event of its kind.
+# ---------------------------------------------------------------------------
+PEER = 'F1:F1:F1:F1:F1:F1'
+ABSENT = 'C7:C7:C7:C7:C7:C7'
+
+
+def seq_families():
+    """name -> (world, [(label, class name, overrides)])"""
+    from bumble import hci
+
+    A = lambda s, t=hci.Address.PUBLIC_DEVICE_ADDRESS: hci.Address(s, t)
+    adv = [('P0', 'HCI_LE_Set_Extended_Advertising_Parameters_Command', {'advertising_handle': 0, 'advertising_event_properties': 0x13}),
+           ('P1', 'HCI_LE_Set_Extended_Advertising_Parameters_Command', {'advertising_handle': 1})]
+    for op in range(5):
+        adv.append((f'D{op}', 'HCI_LE_Set_Extended_Advertising_Data_Command', {'advertising_handle': 0, 'operation': op, 'advertising_data': bytes([2, 1, 6 + op])}))
+    for op in (0, 1, 2, 3):
+        adv.append((f'S{op}', 'HCI_LE_Set_Extended_Scan_Response_Data_Command', {'advertising_handle': 0, 'operation': op, 'scan_response_data': bytes([2, 9, 0x41 + op])}))
+    adv += [
+        ('E1', 'HCI_LE_Set_Extended_Advertising_Enable_Command', {'enable': 1, 'advertising_handles': [0], 'durations': [0], 'max_extended_advertising_events': [0]}),
+        ('E0', 'HCI_LE_Set_Extended_Advertising_Enable_Command', {'enable': 0, 'advertising_handles': [0], 'durations': [0], 'max_extended_advertising_events': [0]}),
+        ('Eall0', 'HCI_LE_Set_Extended_Advertising_Enable_Command', {'enable': 0, 'advertising_handles': [], 'durations': [], 'max_extended_advertising_events': []}),
+        ('R0', 'HCI_LE_Remove_Advertising_Set_Command', {'advertising_handle': 0}),
+        ('C', 'HCI_LE_Clear_Advertising_Sets_Command', {}),
+        ('A0', 'HCI_LE_Set_Advertising_Set_Random_Address_Command', {'advertising_handle': 0, 'random_address': A('C1:C2:C3:C4:C5:C6', hci.Address.RANDOM_DEVICE_ADDRESS)}),
+    ]
+    legacy = [
+        ('AP', 'HCI_LE_Set_Advertising_Parameters_Command', {'advertising_interval_min': 0x20, 'advertising_interval_max': 0x20, 'advertising_channel_map': 7}),
+        ('AD', 'HCI_LE_Set_Advertising_Data_Command', {'advertising_data': bytes([2, 1, 6])}),
+        ('SR', 'HCI_LE_Set_Scan_Response_Data_Command', {'scan_response_data': bytes([2, 9, 0x41])}),
+        ('AE1', 'HCI_LE_Set_Advertising_Enable_Command', {'advertising_enable': 1}),
+        ('AE0', 'HCI_LE_Set_Advertising_Enable_Command', {'advertising_enable': 0}),
+        ('RA', 'HCI_LE_Set_Random_Address_Command', {'random_address': A('C1:C2:C3:C4:C5:C6', hci.Address.RANDOM_DEVICE_ADDRESS)}),
+        ('SP', 'HCI_LE_Set_Scan_Parameters_Command', {'le_scan_type': 1, 'le_scan_interval': 0x10, 'le_scan_window': 0x10}),
+        ('SE1', 'HCI_LE_Set_Scan_Enable_Command', {'le_scan_enable': 1}),
+        ('SE0', 'HCI_LE_Set_Scan_Enable_Command', {'le_scan_enable': 0}),
+        ('E1', 'HCI_LE_Set_Extended_Advertising_Enable_Command', {'enable': 1, 'advertising_handles': [0], 'durations': [0], 'max_extended_advertising_events': [0]}),
+    ]
+    lists = [
+        ('FA', 'HCI_LE_Add_Device_To_Filter_Accept_List_Command', {'address_type': 0, 'address': A(PEER)}),
+        ('FA2', 'HCI_LE_Add_Device_To_Filter_Accept_List_Command', {'address_type': 1, 'address': A(PEER)}),
+        ('FR', 'HCI_LE_Remove_Device_From_Filter_Accept_List_Command', {'address_type': 0, 'address': A(PEER)}),
+        ('FC', 'HCI_LE_Clear_Filter_Accept_List_Command', {}),
+        ('RL', 'HCI_LE_Add_Device_To_Resolving_List_Command', {'peer_identity_address_type': 0, 'peer_identity_address': A(PEER), 'peer_irk': bytes(range(16)), 'local_irk': bytes(16)}),
+        ('RC', 'HCI_LE_Clear_Resolving_List_Command', {}),
+        ('ARE1', 'HCI_LE_Set_Address_Resolution_Enable_Command', {'address_resolution_enable': 1}),
+        ('ARE0', 'HCI_LE_Set_Address_Resolution_Enable_Command', {'address_resolution_enable': 0}),
+    ]
+    cig = [
+        ('CIG', 'HCI_LE_Set_CIG_Parameters_Command', {'cig_id': 1, 'sdu_interval_c_to_p': 10000, 'sdu_interval_p_to_c': 10000, 'max_transport_latency_c_to_p': 10, 'max_transport_latency_p_to_c': 10,
+                                                       'cis_id': [1], 'max_sdu_c_to_p': [40], 'max_sdu_p_to_c': [40], 'phy_c_to_p': [1], 'phy_p_to_c': [1], 'rtn_c_to_p': [1], 'rtn_p_to_c': [1]}),
+        ('CIG2', 'HCI_LE_Set_CIG_Parameters_Command', {'cig_id': 1, 'sdu_interval_c_to_p': 10000, 'sdu_interval_p_to_c': 10000, 'max_transport_latency_c_to_p': 10, 'max_transport_latency_p_to_c': 10,
+                                                        'cis_id': [1, 2], 'max_sdu_c_to_p': [40, 40], 'max_sdu_p_to_c': [40, 40], 'phy_c_to_p': [1, 1], 'phy_p_to_c': [1, 1], 'rtn_c_to_p': [1, 1], 'rtn_p_to_c': [1, 1]}),
+        ('RCIG', 'HCI_LE_Remove_CIG_Command', {'cig_id': 1}),
+        ('CCIS', 'HCI_LE_Create_CIS_Command', {'cis_connection_handle': ['@cis'], 'acl_connection_handle': ['@acl']}),
+        ('DCIS', 'HCI_Disconnect_Command', {'connection_handle': '@cis', 'reason': 0x13}),
+        ('SIDP', 'HCI_LE_Setup_ISO_Data_Path_Command', {'connection_handle': '@cis', 'data_path_direction': 0}),
+        ('RIDP', 'HCI_LE_Remove_ISO_Data_Path_Command', {'connection_handle': '@cis', 'data_path_direction': 1}),
+    ]
+    remote_cl = [
+        ('RN', 'HCI_Remote_Name_Request_Command', {'bd_addr': A(PEER)}),
+        ('RNabs', 'HCI_Remote_Name_Request_Command', {'bd_addr': A(ABSENT)}),
+        ('RSF', 'HCI_Read_Remote_Supported_Features_Command', {'connection_handle': '@acl'}),
+        ('REF', 'HCI_Read_Remote_Extended_Features_Command', {'connection_handle': '@acl', 'page_number': 1}),
+        ('RVI', 'HCI_Read_Remote_Version_Information_Command', {'connection_handle': '@acl'}),
+        ('RCO', 'HCI_Read_Clock_Offset_Command', {'connection_handle': '@acl'}),
+    ]
+    remote_le = [
+        ('LRF', 'HCI_LE_Read_Remote_Features_Command', {'connection_handle': '@acl'}),
+        ('RVI', 'HCI_Read_Remote_Version_Information_Command', {'connection_handle': '@acl'}),
+        ('LRFdead', 'HCI_LE_Read_Remote_Features_Command', {'connection_handle': 0x0EFF}),
+    ]
+    return {
+        'ext_adv': ('fresh', adv), 'legacy_adv_scan': ('fresh', legacy), 'lists': ('fresh', lists), 'cig': ('le_connected', cig),
+        'remote_classic': ('classic_connected', remote_cl), 'remote_le': ('le_connected', remote_le),
+    }
+
+
+# opcode -> completion event (code, LE sub-event) of remote requests answered with a Command Status
+SEQ_COMPLETIONS = {0x0419: (0x07, None), 0x041B: (0x0B, None), 0x041C: (0x23, None), 0x041D: (0x0C, None), 0x041F: (0x1C, None), 0x2016: (0x3E, 0x04)}
+
+
+def seq_build(w, fam, label):
+    from bumble import hci
+
+    for lab, cname, over in seq_families()[fam][1]:
+        if lab == label:
+            break
+    else:
+        raise KeyError(label)
+    cls = getattr(hci, cname)
+    c0 = w.controllers[0]
+    acl = next(iter(list(c0.le_connections.values()) + list(c0.classic_connections.values())), None)
+    acl_h = acl.handle if acl is not None else 0x0EFF
+    # the CIS handle the controller allocated for the CIG, if any (0x0EFE = none)
+    cis_h = 0x0EFE
+    for attr in ('central_cis_links', 'cis_links'):
+        links = getattr(c0, attr, None)
+        if links:
+            cis_h = sorted(links)[0]
+            break
+
+    def sub(v):
+        if v == '@acl':
+            return acl_h
+        if v == '@cis':
+            return cis_h
+        if isinstance(v, list):
+            return [sub(x) for x in v]
+        return v
+
+    base = cls.from_parameters(bytes(min_params(cls)))
+    return rebuild(cls, base, **{k: sub(v) for k, v in over.items()})
+
+
+def run_seq_burst(fam, labels):
+    """The same sequence issued by concurrent callers: each command goes out as soon as the previous one was answered,
+    while the remote requests accepted earlier are still in progress."""
+    from bumble import hci
+
+    w = make_world(seq_families()[fam][0])
+    out = []
+    try:
+        tap = Tap(w, 0)
+        host = w.hosts[0]
+        cmds = [seq_build(w, fam, lab) for lab in labels]
+        tasks = [w.loop.create_task(host.send_command(c)) for c in cmds]
+        w.loop.run_quiescent(max_steps=50000)
+        excs = w.loop.collect_exceptions()
+        sig = {'family': fam, 'mode': 'burst'}
+        for op in sorted({c.op_code for c in cmds}):
+            sent = sum(1 for c in cmds if c.op_code == op)
+            rs = tap.responses(op)
+            if len(rs) != sent:
+                why = f' (controller raised: {excs[0][1][:160]})' if excs else ''
+                out.append(('seq_unanswered' if len(rs) < sent else 'seq_answered_twice', dict(sig, opcode=f'{op:#06x}'),
+                            f'{fam} burst {list(labels)}: {sent} command(s) {op:#06x} sent, {len(rs)} response(s){why}'))
+        if not out and not all(t.done() for t in tasks):
+            out.append(('seq_caller_pending', sig, f'{fam} burst {list(labels)}: a send_command is still pending although every command was answered'))
+        for t in tasks:
+            if t.done():
+                t.exception()
+            else:
+                t.cancel()
+        if not out:
+            accepted = collections.Counter()
+            per_op = collections.defaultdict(list)
+            for c in cmds:
+                per_op[c.op_code].append(c)
+            for op in per_op:
+                if op in SEQ_COMPLETIONS:
+                    accepted[op] = sum(1 for r in tap.responses(op) if r == ('CS', 0))
+            if any(accepted.values()):
+                w.loop.advance(30.0, max_steps=400000)
+            w.loop.collect_exceptions()
+            for op, n in accepted.items():
+                code, subc = SEQ_COMPLETIONS[op]
+                got = len(tap.events(code, subc))
+                if got != n:
+                    out.append(('seq_proc_conclusions', {'family': fam, 'opcode': f'{op:#06x}', 'accepted': n, 'concluded': got, 'mode': 'burst'},
+                                f'{fam} burst {list(labels)}: {n} request(s) {op:#06x} accepted with Command Status 0 but {got} completion event(s) {code:#04x}{"" if subc is None else "/" + hex(subc)} delivered'))
+    finally:
+        w.__exit__()
+    return out
+
+
+def run_seq_case(fam, labels, mode='step'):
+    """-> list of (check, signature, message)"""
+    from bumble import hci
+
+    if mode == 'burst':
+        return run_seq_burst(fam, labels)
+    world = seq_families()[fam][0]
+    w = make_world(world)
+    out = []
+    try:
+        tap = Tap(w, 0)
+        host = w.hosts[0]
+        accepted = collections.Counter()
+        for i, lab in enumerate(labels):
+            cmd = seq_build(w, fam, lab)
+            op = cmd.op_code
+            n0 = len(tap.responses(op))
+            task = w.loop.create_task(host.send_command(cmd))
+            w.loop.run_quiescent(max_steps=20000)
+            excs = w.loop.collect_exceptions()
+            rs = tap.responses(op)[n0:]
+            where = f'{fam} sequence {list(labels)} step {i} ({lab} = {cmd.name})'
+            sig = {'family': fam, 'command': lab, 'after': labels[i - 1] if i else None}
+            if len(rs) == 0:
+                why = f' (controller raised: {excs[0][1][:160]})' if excs else ''
+                out.append(('seq_unanswered', dict(sig, kind='raised' if excs else 'silent'), f'{where}: no Command Complete/Status{why}'))
+                break
+            if len(rs) > 1:
+                out.append(('seq_answered_twice', sig, f'{where}: {len(rs)} responses: {rs}'))
+                break
+            if not task.done():
+                out.append(('seq_caller_pending', sig, f'{where}: send_command still pending although a response was delivered'))
+                break
+            task.exception()
+            if rs[0] == ('CS', 0) and op in SEQ_COMPLETIONS:
+                accepted[op] += 1
+        else:
+            # let every accepted remote request conclude (page time-outs included)
+            if accepted:
+                w.loop.advance(30.0, max_steps=400000)
+            w.loop.collect_exceptions()
+            for op, n in accepted.items():
+                code, subc = SEQ_COMPLETIONS[op]
+                got = len(tap.events(code, subc))
+                if got != n:
+                    out.append(('seq_proc_conclusions', {'family': fam, 'opcode': f'{op:#06x}', 'accepted': n, 'concluded': got},
+                                f'{fam} sequence {list(labels)}: {n} request(s) {op:#06x} accepted with Command Status 0 but {got} completion event(s) {code:#04x}{"" if subc is None else "/" + hex(subc)} delivered'))
+            t2 = w.loop.create_task(host.send_command(hci.HCI_Read_BD_ADDR_Command()))
+            w.loop.run_quiescent(max_steps=20000)
+            w.loop.collect_exceptions()
+            if not t2.done():
+                t2.cancel()
+                out.append(('seq_blocks_later', {'family': fam, 'command': labels[-1]}, f'{fam} sequence {list(labels)}: a Read_BD_ADDR issued afterwards was never answered'))
+            else:
+                t2.exception()
+    finally:
+        w.__exit__()
+    return out
+
+
+def w_seq(arg):
+    fam, seqs = arg
+    st = core.Stats('reply_seq')
+    for labels in seqs:
+        for mode in ('step', 'burst') if len(labels) > 1 else ('step',):
+            res = run_seq_case(fam, labels, mode)
+            st.case((fam, labels, mode), None, nontrivial=len(labels) > 1)
+            st.add('families', fam)
+            for check, sig, msg in res:
+                st.violation(check, sig, msg, {'fam': fam, 'labels': list(labels), 'mode': mode})
+    if seqs and len(st.samples) < 1:
+        st.samples.append({'family': fam, 'sequence': list(seqs[len(seqs) // 2])})
+    return st
+
+
+def seq_items(quick, jobs):
+    items = []
+    for fam, (world, alpha) in seq_families().items():
+        labs = [a[0] for a in alpha]
+        n = 3 if (quick and len(labs) <= 10) or not quick else 2
+        seqs = [s for k in range(1, n + 1) for s in itertools.product(labs, repeat=k)]
+        if quick and len(labs) > 10:
+            # the large family: all pairs, and the triples whose middle element is a data fragment
+            seqs += [s for s in itertools.product(labs, repeat=3) if s[1][0] in 'DS' and s[0][0] in 'PDSR' ]
+        for part in core.split(seqs, jobs):
+            items.append((fam, part))
+    return items
+
+
+# ---------------------------------------------------------------------------
+# sub-check 7: remote requests IN FLIGHT AT THE SAME TIME (explorer).  Two callers (on one host, or on two hosts asking
+# about the same third device) issue remote requests; every order-preserving delay of HCI and link messages with <= d
+# deviations is explored, so that the second request is accepted while the first one's answer is still travelling.
+# Oracle per host: every request accepted with Command Status 0 is concluded by exactly one completion event of its kind.
+# ---------------------------------------------------------------------------
+OVERLAP_SCRIPTS = [
+    # (world, n devices, [(host, family label)])
+    ('classic_connected', 2, [(0, 'RN'), (0, 'RN')]),
+    ('classic_connected', 2, [(0, 'RN'), (0, 'RSF')]),
+    ('classic_connected', 2, [(0, 'RSF'), (0, 'RSF')]),
+    ('classic_connected', 2, [(0, 'RVI'), (0, 'REF')]),
+    ('classic_connected', 2, [(0, 'RN'), (1, 'RN0')]),
+    ('classic3', 3, [(0, 'RN2'), (1, 'RN2')]),
+    ('classic3', 3, [(0, 'RN2'), (1, 'RN2'), (0, 'RN2')]),
+    ('le_connected', 2, [(0, 'LRF'), (0, 'LRF')]),
+    ('le_connected', 2, [(0, 'LRF'), (0, 'RVI')]),
+    ('le_connected', 2, [(0, 'LRF'), (1, 'LRF')]),
+]
+
+
+def run_overlap(params, prefix, fp):
+    from bumble import hci
+
+    world, n, script = OVERLAP_SCRIPTS[params['script']]
+    if world == 'classic3':
+        w = World(3, classic=True)
+        w.__enter__()
+        w.power_on()
+    else:
+        w = make_world(world)
+    try:
+        taps = [Tap(w, i) for i in range(n)]
+
+        def build(h, lab):
+            if lab in ('RN0', 'RN2'):
+                return hci.HCI_Remote_Name_Request_Command(bd_addr=hci.Address(w.addresses[int(lab[2])]), page_scan_repetition_mode=0, reserved=0, clock_offset=0)
+            fam = 'remote_le' if world == 'le_connected' else 'remote_classic'
+            for lab2, cname, over in seq_families()[fam][1]:
+                if lab2 == lab:
+                    break
+            cls = getattr(hci, cname)
+            c = w.controllers[h]
+            acl = next(iter(list(c.le_connections.values()) + list(c.classic_connections.values())), None)
+            base = cls.from_parameters(bytes(min_params(cls)))
+            return rebuild(cls, base, **{k: (acl.handle if v == '@acl' else v) for k, v in over.items()})
+
+        cmds = [(h, build(h, lab)) for h, lab in script]
+        sched = explore.Sched(prefix, hold=True, expect_fp=fp)
+        w.loop.scheduler = sched
+        tasks = [w.loop.create_task(w.hosts[h].send_command(c)) for h, c in cmds]
+        sched.active = True
+        w.loop.run_until(lambda: all(t.done() for t in tasks), horizon=w.loop.time() + 3.0, max_steps=50000)
+        w.loop.run_quiescent(max_steps=50000)
+        sched.active = False
+        w.loop.advance(30.0, max_steps=400000)
+        w.loop.collect_exceptions()
+        viol = []
+        pend = [i for i, t in enumerate(tasks) if not t.done()]
+        if pend:
+            viol.append(('overlap_caller_pending', {'script': params['script']}, f'script {script}: callers {pend} never completed: ' + ' | '.join(fmt_log(t.log) for t in taps)))
+        for t in tasks:
+            if t.done() and not t.cancelled():
+                t.exception()
+        obs = []
+        for h in range(n):
+            for op in sorted({c.op_code for hh, c in cmds if hh == h}):
+                if op not in SEQ_COMPLETIONS:
+                    continue
+                acc = sum(1 for r in taps[h].responses(op) if r == ('CS', 0))
+                code, subc = SEQ_COMPLETIONS[op]
+                got = len(taps[h].events(code, subc))
+                obs.append((h, op, acc, got))
+                if acc != got:
+                    viol.append(('overlap_proc_conclusions', {'opcode': f'{op:#06x}', 'accepted': acc, 'concluded': got, 'hosts': len({hh for hh, _ in script})},
+                                 f'script {script}: host {h} had {acc} request(s) {op:#06x} accepted but {got} completion event(s): {fmt_log(taps[h].log)}'))
+        return {'points': sched.points, 'fp': sched.fp, 'obs': [obs, [fmt_log(t.log) for t in taps]], 'viol': viol}
+    finally:
+        w.__exit__()
